@@ -399,3 +399,30 @@ PLANS["C10"] = dict(
     assumptions=["2*area of an integer geometry is exact in float64 (checked per event)"],
     trusted_base=["TLC 2026.09.04", "CommunityModules Json/IOUtils", "harness rounding"],
 )
+
+# ---- C16 -------------------------------------------------------------------------------------------
+
+
+def run_c16(ctx):
+    ctx.mc("SmartClipMC", "SmartClipMC.cfg", workers=4, note="aroundBound corner tables: cyclic, mutually inverse, terminate within 7 steps, adjacent positions share a side, turn direction = orientation")
+    shards = ctx.gen("smartclip")
+    ctx.validate("SmartClip_Trace", shards)
+    ctx.exhaustive = True
+    ctx.notes.append("exhaustive part: every non-degenerate triangle of the 4x4 (5x5) grid x boxes with integer corners x both orientations (a quarter / half of the combinations by a fixed stride)")
+
+
+def sig_c16(ev):
+    if ev.get("_alt"):
+        return "smartclip:ring-vertex-on-box-boundary-with-both-edges-entering"
+    return sig_default(ev)
+
+
+PLANS["C16"] = dict(
+    run=run_c16, signature=sig_c16,
+    technique="TLA+ region predicates (exact even-odd membership on a query lattice, ring shape/winding, open-path closure along the box outline) and the aroundBound corner tables; TLC model-checks the tables and validates traces of the real smartclip calls",
+    level_text="TLC checks the corner-walk tables of aroundBound (cyclic, inverse, terminating, adjacent, turning as requested). For triangles of a 4x4 (5x5) grid x boxes x both orientations, and seeded simple star-shaped rings of 3..12 vertices with vertices on box edges and corners, polygons with an interior hole, two-member multipolygons, through Ring/Polygon/MultiPolygon/Geometry, TLC requires: every output ring closed and inside the closed box, outers wound as requested and holes opposite (zero-area two-point rings from corner touches allowed), a region wholly inside returned unchanged, one wholly outside yielding nothing, and - whenever the input boundary meets the open box - q in output iff q in input for every quarter-step lattice point strictly inside the box and off all boundaries. Open sub-paths of such rings cut at the box are judged against the path closed along the box outline in the requested direction.",
+    level_note="Rings that surround the box or only touch it are outside the property's domain (the spec evaluates 'boundary meets the open box' itself). Inputs are simple by construction (strictly increasing exact angle about an interior point). Lattice 1/60, residual > 1e-7 = 'offlattice'. Trusted: TLC, Json module, lattice projection, clip.LineString(OpenBound) to cut the open sub-paths.",
+    rule="one event = one real smartclip call; non-trivial = non-empty output different from the input; distinct = distinct event text",
+    assumptions=["input rings are simple and correctly wound (constructed, not checked by the code)"],
+    trusted_base=["TLC 2026.09.04", "CommunityModules Json/IOUtils", "harness lattice projection"],
+)
